@@ -458,10 +458,12 @@ class _ScopeVisitor(_ExpressionVisitor):
         _AnnAssignVisitor(self).visit(node)
 
     def _AugAssign(self, node):
-        pass
+        # no new name, but the value may contain comprehension scopes
+        _ExpressionVisitor(self).visit(node.value)
 
     def _For(self, node):
         self._update_evaluated(node.target, node.iter, ".__iter__().next()")
+        _ExpressionVisitor(self).visit(node.iter)
         for child in node.body + node.orelse:
             self.visit(child)
 
@@ -499,6 +501,7 @@ class _ScopeVisitor(_ExpressionVisitor):
                 self._update_evaluated(
                     item.optional_vars, item.context_expr, ".__enter__()"
                 )
+            _ExpressionVisitor(self).visit(item.context_expr)
         for child in node.body:
             self.visit(child)
 
